@@ -525,6 +525,20 @@ func init() {
 		rv, st1 := x.eval(n.Args[0], st)
 		c := x.c
 		o := Obj{"bufio.Reader", map[string]Val{}}
+		if src, ok := rv.(Obj); ok && src.Kind == "bytes.Buffer" {
+			// reading from an in-memory buffer: the stream is the buffer's content, it never faults
+			out := c.normView(src.F["out"].(Sl))
+			o.F["id"] = scInt(c.fresh("bufid", SInt))
+			o.F["in"] = out.Arr
+			o.F["end"] = scInt(out.Len)
+			o.F["fault"] = scBool(tFalse)
+			o.F["forever"] = scBool(tFalse)
+			o.F["err"] = scInt("3")
+			o.F["pos"] = scInt("0")
+			o.F["fired"] = scBool(tFalse)
+			o.F["canUnread"] = scBool(tFalse)
+			return o, st1
+		}
 		c.streamFields(o, "br", rv.(Obj).F["id"].(Sc))
 		o.F["pos"] = scInt("0")
 		o.F["fired"] = scBool(tFalse)
